@@ -723,6 +723,12 @@ class StmtMixin(CallMixin):
                     raise Unsupported("range with step")
                 res.append((s2, {"kind": "range", "lo": lo, "hi": hi}))
             return res
+        if isinstance(it, ast.Call) and isinstance(it.func, ast.Name) and it.func.id == "reversed" and len(it.args) == 1:
+            for s2, v in self.ev(it.args[0], st):
+                if not isinstance(v.ty, List):
+                    raise Unsupported("reversed(%s)" % v.ty)
+                res.append((s2, {"kind": "list", "list": V(v.ty, v.t), "rev": True}))
+            return res
         if isinstance(it, ast.Call) and isinstance(it.func, ast.Name) and it.func.id == "enumerate":
             for s2, v in self.ev(it.args[0], st):
                 res.append((s2, {"kind": "list", "list": v, "enum": True}))
@@ -809,10 +815,13 @@ class StmtMixin(CallMixin):
             self.assign(st, s.target, dv["i"])
         elif k == "list":
             lst = dv["list"]
+            idx = dv["i"].t
+            if dv.get("rev"):
+                idx = T.list_len(lst) - T.intval(1).t - idx      # reversed(): $i still counts completed iterations
             if lst.ty == BYTES:
-                el = V(INT, self.byte_to_int(z3.Select(T.list_arr(lst), dv["i"].t)))
+                el = V(INT, self.byte_to_int(z3.Select(T.list_arr(lst), idx)))
             else:
-                el = V(lst.ty.elem, z3.Select(T.list_arr(lst), dv["i"].t))
+                el = V(lst.ty.elem, z3.Select(T.list_arr(lst), idx))
             self.assume_valid(st, el)
             if dv.get("enum"):
                 el = V(PYOBJ, PyThing("pytuple", items=[dv["i"], el]))
